@@ -554,13 +554,18 @@ const PASTE_PAIRS: &[(&str, &str)] = &[
     ("2.5", "f"), ("+", "="), ("-", "-"), ("&", "&"), (":", ":"), ("=", "="), ("if", "x"), ("float", "4"), ("|", "="), ("1", "u"),
 ];
 
+/// what may stand between the name of a function-like macro and its `(` in ordinary text
+const ML_GAPS: &[&str] = &["\n", "\r\n", " // c\n", "\n  ", " /* c */ \n", "\n\n", " \\\n\n"];
+
 struct FileGen {
     /// macros visible so far: (name, parameter count or None)
     macros: Vec<(String, Option<usize>)>,
     counter: usize,
 }
 
-fn pp_item(g: &FileGen, rng: &mut Rng, depth: u32, params: &[&str]) -> String {
+/// `ml`: the item is part of ordinary text (not of a directive), so an invocation of a function-like macro may continue
+/// on the next line (accepted since fix f08088c: line ends between the name and `(` are skipped like other white space)
+fn pp_item(g: &FileGen, rng: &mut Rng, depth: u32, params: &[&str], ml: bool) -> String {
     match rng.below(12) {
         0 | 1 => rng.pick(PP_IDENTS).to_string(),
         2 | 3 => rng.pick(PP_LITS).to_string(),
@@ -570,7 +575,8 @@ fn pp_item(g: &FileGen, rng: &mut Rng, depth: u32, params: &[&str]) -> String {
             let (name, arity) = rng.pick(&g.macros).clone();
             if name.starts_with("CAT") {
                 let (a, b) = rng.pick(PASTE_PAIRS);
-                return format!("{}({}{}{})", name, a, rng.pick(&[",", ", ", " , "]), b);
+                let gap = if ml && rng.chance(1, 6) { *rng.pick(ML_GAPS) } else { "" };
+                return format!("{}{}({}{}{})", name, gap, a, rng.pick(&[",", ", ", " , "]), b);
             }
             match arity {
                 None => name,
@@ -578,11 +584,19 @@ fn pp_item(g: &FileGen, rng: &mut Rng, depth: u32, params: &[&str]) -> String {
                     let args: Vec<String> = (0..n)
                         .map(|_| {
                             let k = rng.range(1, 2);
-                            (0..k).map(|_| pp_arg_item(g, rng, depth + 1, params)).collect::<Vec<_>>().join(" ")
+                            (0..k).map(|_| pp_arg_item(g, rng, depth + 1, params, ml)).collect::<Vec<_>>().join(" ")
                         })
                         .collect();
-                    let gap = if rng.chance(1, 6) { " " } else { "" };
-                    format!("{}{}({})", name, gap, args.join(if rng.chance(1, 2) { ", " } else { "," }))
+                    let gap = if ml && rng.chance(1, 5) {
+                        *rng.pick(ML_GAPS)
+                    } else if rng.chance(1, 6) {
+                        " "
+                    } else {
+                        ""
+                    };
+                    // `Z(` newline `)`: the empty argument list of a zero parameter macro may hold a line break
+                    let inner = if ml && n == 0 && rng.chance(1, 4) { *rng.pick(&["\n", " \r\n ", "\n\n"]) } else { "" };
+                    format!("{}{}({}{})", name, gap, inner, args.join(if rng.chance(1, 2) { ", " } else { "," }))
                 }
             }
         }
@@ -591,9 +605,9 @@ fn pp_item(g: &FileGen, rng: &mut Rng, depth: u32, params: &[&str]) -> String {
 }
 
 /// an item that is safe inside a macro argument (no unbalanced parenthesis, no comma)
-fn pp_arg_item(g: &FileGen, rng: &mut Rng, depth: u32, params: &[&str]) -> String {
+fn pp_arg_item(g: &FileGen, rng: &mut Rng, depth: u32, params: &[&str], ml: bool) -> String {
     loop {
-        let s = pp_item(g, rng, depth, params);
+        let s = pp_item(g, rng, depth, params, ml);
         if s.contains('(') && !s.ends_with(')') {
             continue;
         }
@@ -604,7 +618,7 @@ fn pp_arg_item(g: &FileGen, rng: &mut Rng, depth: u32, params: &[&str]) -> Strin
     }
 }
 
-fn pp_line(g: &FileGen, rng: &mut Rng, params: &[&str], allow_paste: bool) -> String {
+fn pp_line(g: &FileGen, rng: &mut Rng, params: &[&str], allow_paste: bool, ml: bool) -> String {
     let n = rng.range(1, 7);
     let mut s = String::new();
     for i in 0..n {
@@ -617,8 +631,20 @@ fn pp_line(g: &FileGen, rng: &mut Rng, params: &[&str], allow_paste: bool) -> St
             let r = if rng.chance(2, 3) { rng.pick(params).to_string() } else { rng.pick(&["y", "2", "_z", "f", "=", "<", "5", "u"]).to_string() };
             s.push_str(&format!("{}{}##{}{}", l, rng.pick(&["", " "]), rng.pick(&["", " "]), r));
         } else {
-            s.push_str(&pp_item(g, rng, 0, params));
+            s.push_str(&pp_item(g, rng, 0, params, ml));
         }
+    }
+    s
+}
+
+/// a line of ordinary text; macro invocations in it may continue over line ends
+fn text_line(g: &FileGen, rng: &mut Rng, hist: &mut Hist) -> String {
+    let s = pp_line(g, rng, &[], false, true);
+    if s.contains("\n(") || s.contains("\n  (") {
+        hist.add("pp.gen.invocation_over_lines");
+    }
+    if s.contains("(\n") || s.contains("( \r\n") {
+        hist.add("pp.gen.empty_args_over_lines");
     }
     s
 }
@@ -639,7 +665,7 @@ fn gen_file(g: &mut FileGen, rng: &mut Rng, includes: &[&str], header: bool, his
                 // object-like macro
                 g.counter += 1;
                 let name = format!("M{}", g.counter);
-                let body = if rng.chance(1, 8) { String::new() } else { pp_line(g, rng, &[], false) };
+                let body = if rng.chance(1, 8) { String::new() } else { pp_line(g, rng, &[], false, false) };
                 out.push_str(&format!("#define {} {}", name, body));
                 g.macros.push((name, None));
                 hist.add("pp.gen.define_object");
@@ -650,7 +676,7 @@ fn gen_file(g: &mut FileGen, rng: &mut Rng, includes: &[&str], header: bool, his
                 let n = rng.range(0, 3) as usize;
                 let all = ["a", "b", "c"];
                 let params = &all[..n];
-                let body = pp_line(g, rng, params, true);
+                let body = pp_line(g, rng, params, true, false);
                 out.push_str(&format!("#define {}({}) {}", name, params.join(if rng.chance(1, 2) { ", " } else { "," }), body));
                 g.macros.push((name, Some(n)));
                 hist.add("pp.gen.define_function");
@@ -675,7 +701,7 @@ fn gen_file(g: &mut FileGen, rng: &mut Rng, includes: &[&str], header: bool, his
                 if rng.chance(1, 2) {
                     out.push_str("#else");
                     out.push_str(eol);
-                    out.push_str(&pp_line(g, rng, &[], false));
+                    out.push_str(&text_line(g, rng, hist));
                     out.push_str(eol);
                 }
                 out.push_str("#endif");
@@ -699,7 +725,7 @@ fn gen_file(g: &mut FileGen, rng: &mut Rng, includes: &[&str], header: bool, his
                 hist.add("pp.gen.undef");
             }
             _ => {
-                out.push_str(&pp_line(g, rng, &[], false));
+                out.push_str(&text_line(g, rng, hist));
                 hist.add("pp.gen.tokens");
             }
         }
@@ -714,7 +740,7 @@ fn gen_file(g: &mut FileGen, rng: &mut Rng, includes: &[&str], header: bool, his
     }
     // use a few of the macros at the end so that expansions are frequent
     for _ in 0..rng.range(0, 3) {
-        out.push_str(&pp_line(g, rng, &[], false));
+        out.push_str(&text_line(g, rng, hist));
         out.push_str(eol);
     }
     if rng.chance(1, 5) {
@@ -734,7 +760,7 @@ fn gen_pp_program(rng: &mut Rng, hist: &mut Hist) -> (Vec<(String, String)>, Vec
         let value = match rng.below(4) {
             0 => String::new(),
             1 => rng.pick(PP_LITS).to_string(),
-            _ => pp_line(&g, rng, &[], false).replace("\\\n", " "),
+            _ => pp_line(&g, rng, &[], false, false).replace("\\\n", " "),
         };
         defines.push((name.clone(), value));
         g.macros.push((name, None));
